@@ -392,6 +392,9 @@ def render_file(path, module, moddir, ctx):
             edits.append(Edit(0, 0, '/*@GHOST:%s@*/\n%s\n/*@ENDGHOST@*/\n' % (g.src, g.text), prio=-1))
             info.used_ghosts.add(gi)
 
+    for m_ in re.finditer(r'^[ \t]*(pub(?:\([^)]*\))?[ \t]+)?(?:struct|enum)[ \t]+(\w+)', src, re.M):
+        if not m_.group(1):
+            ctx['private_types'].add(m_.group(2))
     # contract-less pure helpers of this file (their calls inside derived copies name the denotation directly)
     for f in sc.fns:
         if any(a <= f.start < e for a, e in sc.drop_spans):
@@ -555,7 +558,10 @@ def render_file(path, module, moddir, ctx):
                 rettype = src[f.ret_span[0]:f.ret_span[1]]
                 ptext = src[f.params_span[0] + 1:f.params_span[1]].strip()
                 selfcall = 'self.' if re.match(r'^&\s*self\b|^self\b', ptext) else ('Self::' if f.owner and not f.owner.startswith('trait ') else '')
-                pre_items = '/*@DERIVED:%s@*/\n    pub open spec fn spec_%s(%s) -> %s %s\n/*@ENDDERIVED@*/\n    ' % (key, f.name, ptext, rettype, copy)
+                # a method of a private type keeps a private denotation (a public one may not look into a private datatype)
+                owner_ty = f.owner.split(' for ')[-1].lstrip('&')
+                vis = '' if owner_ty in ctx['private_types'] else 'pub open '
+                pre_items = '/*@DERIVED:%s@*/\n    %sspec fn spec_%s(%s) -> %s %s\n/*@ENDDERIVED@*/\n    ' % (key, vis, f.name, ptext, rettype, copy)
                 attrs += ['#[verifier::when_used_as_spec(spec_%s)]' % f.name]
                 oid = key + '/derived'
                 clauses.append(('ensures', oid, '%s == %sspec_%s(%s)' % (ret, selfcall, f.name, ', '.join(names))))
@@ -602,7 +608,7 @@ def render_file(path, module, moddir, ctx):
                     called.add(('Self::' if via_self else '') + bt[bi].text)
         owner_ty = f.owner.split(' for ')[-1]
         info.functions.append({'key': key, 'file': rel, 'has_body': f.has_body, 'has_contract': bool(c), 'props': props,
-                               'calls': sorted(called),
+                               'calls': sorted(called), 'is_pub': src[f.sig_start:f.sig_start + 3] == 'pub' or ' for ' in f.owner,
                                'mut_self': bool(re.search(r'&\s*(\'\w+\s+)?mut\s+self', ptxt)),
                                'returns_self': bool(re.search(r'\bSelf\b', rtxt)) or (owner_ty != '' and bool(re.search(r'\b%s\b' % re.escape(owner_ty), rtxt))),
                                'body_sha256': sha(body) if body else None, 'body': body, 'prologue': bool(prologue),
@@ -640,7 +646,7 @@ CELL = re.compile(r'//\s*CELL\s+(.+?)\s*$')
 def generate(repo, contracts_dir, lemma_texts=(), out_path=None, opaque=(), probe=False, external=(), table_hints=None, layout_hints=None, behavioural=()):
     fncontracts, ghosts = vspec.load_dir(contracts_dir)
     info = GenInfo()
-    ctx = {'info': info, 'fncontracts': fncontracts, 'ghosts': ghosts, 'repo': repo, 'opaque': set(opaque), 'probe': probe, 'helpers': set(), 'external': set(external), 'table_hints': table_hints, 'layout_hints': layout_hints, 'behavioural': set(behavioural), 'keycodes_for_synth': []}
+    ctx = {'info': info, 'fncontracts': fncontracts, 'ghosts': ghosts, 'repo': repo, 'opaque': set(opaque), 'probe': probe, 'helpers': set(), 'external': set(external), 'table_hints': table_hints, 'layout_hints': layout_hints, 'behavioural': set(behavioural), 'keycodes_for_synth': [], 'private_types': set()}
     srcdir = os.path.join(repo, 'src')
     try:
         libsrc = open(os.path.join(srcdir, 'lib.rs'), encoding='utf-8').read()
@@ -652,6 +658,7 @@ def generate(repo, contracts_dir, lemma_texts=(), out_path=None, opaque=(), prob
     # lost anchors: contracts / ghost sections whose item no longer exists. They are recorded, not fatal: the caller
     # reports every property that depended on them as undecided (exit 2) and runs its bounded stand-ins.
     info.lost = [(k, fncontracts[k].props) for k in fncontracts if k not in info.used_contracts]
+    info.private_contracts = set(k for k in fncontracts if fncontracts[k].private)
     info.lost_ghosts = [g.src + ' (' + g.kind + ' ' + g.target + ')' for i, g in enumerate(ghosts) if i not in info.used_ghosts]
     text = HEADER + body + '\n' + '\n'.join(lemma_texts) + FOOTER
     info.text = text
@@ -740,8 +747,10 @@ def audit(info):
     for f in info.functions:
         owner = f['key'].rsplit('::', 1)[0]
         ty = owner.split(' for ')[-1]
+        # (a private helper is reachable only through its callers: a contracted caller is verified against the helper's
+        # absent contract, i.e. knowing nothing about the state it leaves, so only functions visible from outside count)
         if ty in INVARIANT_TYPES and f['has_body'] and (f.get('mut_self') or f.get('returns_self')) and not f['has_contract'] \
-                and not f['key'].startswith('ScancodeSet for '):
+                and f.get('is_pub') and not f['key'].startswith('ScancodeSet for '):
             info.invariant_audit.append('%s mutates or constructs %s but has no contract: the invariant is not known to hold after it' % (f['key'], ty))
     for name in info.pub_fields:
         info.invariant_audit.append('struct %s has a public field: its invariant can be broken from outside' % name)
